@@ -392,7 +392,7 @@ static void target_dbdir(const uint8_t *data, size_t size) {
   for (int m = 0; m < nmut && fdp.remaining_bytes() > 0; m++) {
     size_t fi = fdp.ConsumeIntegralInRange<size_t>(0, files.size() - 1);
     std::string &b = files[fi].second;
-    switch (fdp.ConsumeIntegralInRange<int>(0, 6)) {
+    switch (fdp.ConsumeIntegralInRange<int>(0, 7)) {
       case 0: { if (b.empty()) break; size_t off = fdp.ConsumeIntegralInRange<size_t>(0, b.size() - 1); std::string r = fdp.ConsumeRandomLengthString(16); for (size_t i = 0; i < r.size() && off + i < b.size(); i++) b[off + i] = r[i]; break; }
       case 1: { if (b.size() < 8) break; size_t off = fdp.ConsumeIntegralInRange<size_t>(0, b.size() - 8); static const uint64_t vals[] = {0, 1, 0x7f, 0x80, 0xff, 0x7fff, 0xffff, 0x7fffffff, 0xffffffffu, 0x100000000ull, ~0ull}; uint64_t v = vals[fdp.ConsumeIntegralInRange<int>(0, 10)]; int w = fdp.ConsumeIntegralInRange<int>(1, 8); for (int i = 0; i < w; i++) b[off + i] = (char)(v >> (8 * i)); break; }
       case 2: { if (b.empty()) break; b.resize(fdp.ConsumeIntegralInRange<size_t>(0, b.size())); break; }
@@ -400,6 +400,15 @@ static void target_dbdir(const uint8_t *data, size_t size) {
       case 4: { if (b.size() < 2) break; size_t off = fdp.ConsumeIntegralInRange<size_t>(0, b.size() - 1); size_t n = fdp.ConsumeIntegralInRange<size_t>(1, std::min<size_t>(b.size() - off, 600)); for (size_t i = 0; i < n; i++) b[off + i] = 0; break; }
       case 5: { // varint-looking bytes: set the continuation bit on a run
         if (b.empty()) break; size_t off = fdp.ConsumeIntegralInRange<size_t>(0, b.size() - 1); size_t n = fdp.ConsumeIntegralInRange<size_t>(1, std::min<size_t>(b.size() - off, 12)); for (size_t i = 0; i < n; i++) b[off + i] = (char)(b[off + i] | 0x80); break; }
+      case 6: { // a varint-encoded boundary value written over existing bytes (length fields, counts, handles)
+        if (b.empty()) break;
+        static const uint64_t vals[] = {0xffffffffull, 0x80000000ull, 0x7fffffffull, 0xfffffff0ull, 0x100000000ull, ~0ull, 1ull << 56, 0x7full, 0x80ull};
+        std::string v;
+        ref::put_varint64(v, vals[fdp.ConsumeIntegralInRange<int>(0, 8)]);
+        size_t off = fdp.ConsumeIntegralInRange<size_t>(0, b.size() - 1);
+        for (size_t i = 0; i < v.size() && off + i < b.size(); i++) b[off + i] = v[i];
+        break;
+      }
       default: { b = fdp.ConsumeRandomLengthString(200); break; }
     }
   }
